@@ -34,6 +34,8 @@ def build(mode, timeout, callee, payload):
                     e = inner(tag)
                     self.fire(e)
                     x = yield self.wait(e, **kw)
+                elif mode == 'wait_never':
+                    x = yield self.wait('never_fired', **kw)
                 else:
                     self.fire(inner(tag))
                     x = yield self.wait('inner', **kw)
@@ -109,6 +111,10 @@ def run_one(mode, timeout, callee, payload, nroots):
         if r[0] == 'timeout':
             if timeout is None:
                 problems.append('%s: TimeoutError without a timeout' % tag)
+            elif r[2] < timeout:
+                problems.append('%s: TimeoutError after %d loop iterations, timeout was %d' % (tag, r[2], timeout))
+        elif mode == 'wait_never':
+            problems.append('%s: resumed with a result although the awaited event was never fired' % tag)
         else:
             if callee in ('sync', 'nested') or callee.startswith('gen') and callee != 'gen_raise':
                 want = 'r-%s' % tag
@@ -138,9 +144,11 @@ def run_one(mode, timeout, callee, payload, nroots):
 bad = []
 n = 0
 for mode, timeout, callee, payload, nroots in itertools.product(
-        ('call', 'wait_obj', 'wait_name'), (None, 0, 1, 2, 3, 5, 30), ('sync', 'gen1', 'gen3', 'raise', 'gen_raise', 'nested'), ('p', 0, ''), (1, 2)):
+        ('call', 'wait_obj', 'wait_name', 'wait_never'), (None, 0, 1, 2, 3, 5, 30), ('sync', 'gen1', 'gen3', 'raise', 'gen_raise', 'nested'), ('p', 0, ''), (1, 2)):
     if mode == 'wait_name' and nroots == 2:
         continue   # by-name waiters bind to the first matching event: two roots are ambiguous by design
+    if mode == 'wait_never' and (timeout is None or callee != 'sync'):
+        continue   # waiting without timeout for an event nobody fires never ends (by design); the callee plays no role
     n += 1
     try:
         pr = run_one(mode, timeout, callee, payload, nroots)
